@@ -262,6 +262,53 @@ void h_doConnect_tail(void)
   }
 }
 
+/* ===================== accept path: the tail of one onListener iteration (block target) =====================
+ * C02: "data events for an identifier occur only between its accept/connect callback and its close".
+ *  AC-1  a session that is inserted gets its accept callback exactly once, with the id it is stored under, AFTER it is in the table
+ *  AC-2  nothing in the iteration reads from the socket or delivers data (no recv/SSL_read, no data callback): the first data event can only come
+ *        from a later epoll event, i.e. after the accept callback (the I/O thread runs one handler at a time - thread confinement, not proved here)
+ *  AC-3  TLS listener: tlsMode Server, tlsState Handshake, SSL object present; SSL_new failure: the fd is closed once, NOTHING is inserted, no callback -
+ *        the id was never shown to the application, so it needs no close
+ *  AC-4  inserted: fd tag routes the descriptor to the session, gauge + 1, accepted + 1, registered with epoll for read readiness */
+void h_accept_tail(void)
+{
+  TcpEngine E; TcpEngine *self = &E; dc_world(self);
+  G_acccb_calls = 0; G_acccbw_calls = 0; G_acccb_in_table = 0; G_recv_calls = 0; G_sslr_calls = 0; G_datacb_calls = 0;
+  E._config.serverTls.enabled = nondet_bool();
+  Listener L; Listener *lst = &L; __CPROVER_assume(L.tls >= TlsMode_None && L.tls <= TlsMode_Client);
+  SessionId sid = nondet_u64(); G_WSID = sid;
+  int cfd = nondet_int(); __CPROVER_assume(cfd >= 1000 && cfd < 2000); G_WFD = cfd;
+  for (size_t j = 0; j < IORA_NS; j++) if (j < E._sessions.n) __CPROVER_assume(E._sessions.v[j]->id != sid);      /* a fresh id (clause ID2) */
+  Session *s = malloc(sizeof(Session)); __CPROVER_assume(s != NULL); iora_canon_session(s);
+  s->id = sid; s->fd = cfd; s->tlsMode = TlsMode_None; s->ssl = NULL; s->tlsState = TlsState_None; s->tlsWantWrite = 0; s->wq.n = 0; s->wantWrite = 0; s->closed = 0; s->connectPending = 0;
+  s->connectTimeoutId = 0; s->handshakeTimeoutId = 0; s->writeStallTimeoutId = 0;
+  size_t ns0 = E._sessions.n, cur0 = E._atomicStats.sessionsCurrent; uint64_t acc0 = E._atomicStats.accepted; bool acb = E._cbs.onAccept;
+  bool tls_wanted = L.tls == TlsMode_Server && E._config.serverTls.enabled && E._sslSrv != NULL;
+  TcpEngine_accept_tail(self, lst, s, sid, cfd, 0);
+  IORA_CANARY("h_accept_tail: returns");
+  Session *in = iora_smapN_lookup(&self->_sessions, sid);
+  iora_tmapN_it tg = iora_tmapN_find(&self->_fdTags, cfd);
+  __CPROVER_assert(G_recv_calls == 0 && G_sslr_calls == 0 && G_datacb_calls == 0 && G_cb_calls == 0 && G_closeNow_calls == 0, "AC-2 the accept iteration neither reads, nor delivers data, nor closes");
+  __CPROVER_assert(!self->_cbMutex.held && !self->_sessionRwMutex.held, "AC every mutex released");
+  if (in == NULL)
+  {
+    __CPROVER_assert(tls_wanted, "AC-3 a connection is dropped here only when the TLS object cannot be created");
+    __CPROVER_assert(G_acccb_calls == 0 && !tg.found && self->_sessions.n == ns0 && self->_atomicStats.sessionsCurrent == cur0 && self->_atomicStats.accepted == acc0 && G_ep_mods == 0, "AC-3 nothing inserted or registered, no accept callback: the id was never shown to the application");
+    __CPROVER_assert(G_fdclose_calls == 1 && G_wfd_close_calls == 1, "AC-3 the accepted socket is closed exactly once");
+    IORA_CANARY("h_accept_tail: SSL_new failed");
+  }
+  else
+  {
+    __CPROVER_assert(in == s && in->id == sid && in->fd == cfd && !in->closed, "AC-4 the session is in the table under its id, open");
+    __CPROVER_assert(G_acccb_calls == (acb ? 1u : 0u) && G_acccbw_calls == G_acccb_calls && (!acb || G_acccb_in_table), "AC-1 accept callback exactly once (iff registered), with the id the session is stored under, after the insertion");
+    __CPROVER_assert(tg.found && self->_fdTags.v[tg.i]->sess == s && !self->_fdTags.v[tg.i]->isListener, "AC-4 its fd tag routes the descriptor to this session");
+    __CPROVER_assert(self->_sessions.n == ns0 + 1 && self->_atomicStats.sessionsCurrent == cur0 + 1 && self->_atomicStats.accepted == acc0 + 1 && G_fdclose_calls == 0, "AC-4 gauge + 1, accepted + 1, fd stays open");
+    __CPROVER_assert(G_ep_mods == 1 && G_ep_op == EPOLL_CTL_ADD && G_ep_fd == cfd && (G_ep_events & EPOLLIN) != 0, "AC-4 the fd is registered with epoll for read readiness");
+    __CPROVER_assert(tls_wanted ? (in->tlsMode == TlsMode_Server && in->tlsState == TlsState_Handshake && in->ssl != NULL) : (in->tlsMode == TlsMode_None && in->tlsState == TlsState_None && in->ssl == NULL), "AC-3 TLS listener: handshake state entered with an SSL object; plain listener: TLS fields untouched (TLS_INV)");
+    IORA_CANARY("h_accept_tail: inserted");
+  }
+}
+
 #ifdef IORA_SEARCH
 /* SEARCH: shutdownDrain on a small CONCRETE world (only used to obtain an input for REPLAY).
  *   NS sessions (ids 11.., fds 101..), SSLMASK bit i = session i has an SSL object, NL listeners, NCONN queued Connect commands (ids 21..),
